@@ -136,7 +136,8 @@ func genPathNegative(t *rapid.T) c13Neg {
 	}
 	kind := rapid.SampledFrom([]string{"unused-property", "declared-twice-blocks", "declared-twice-macro", "empty-braces", "repeated-name",
 		"body-array", "body-scalar", "body-string", "body-nested-object", "body-nested-array", "body-additionalProperties", "body-nullable", "body-or",
-		"body-ref-scalar", "body-ref-nested", "body-or-shortcut", "no-body", "two-paths-adjacent", "two-paths-apart", "empty-object"}).Draw(t, "kind")
+		"body-ref-scalar", "body-ref-nested", "body-or-shortcut", "no-body", "two-paths-adjacent", "two-paths-apart", "empty-object",
+		"unused-property-no-parameters", "unused-property-no-parameters-macro", "body-nested-no-parameters", "body-typed-any-object", "body-typed-any-array"}).Draw(t, "kind")
 	p1 := fmt.Sprintf("/c%d/{x}", n)
 	switch kind {
 	case "unused-property":
@@ -236,6 +237,32 @@ func genPathNegative(t *rapid.T) c13Neg {
 		ind := open(p1)
 		pathDir(ind, `{}`)
 		closeHost(ind)
+	case "unused-property-no-parameters":
+		// the host's path has no parameter at all
+		ind := open(fmt.Sprintf("/c%d/plain", n))
+		pathDir(ind, `{"nosuch": 2}`)
+		closeHost(ind)
+	case "unused-property-no-parameters-macro":
+		sb.WriteString("MACRO @pm\n(\n")
+		mark()
+		sb.WriteString("  Path\n  {\"nosuch\": 1}\n)\n")
+		ind := open(fmt.Sprintf("/c%d/plain", n))
+		mark()
+		sb.WriteString(ind + "PASTE @pm\n")
+		closeHost(ind)
+	case "body-nested-no-parameters":
+		ind := open(fmt.Sprintf("/c%d/plain", n))
+		pathDir(ind, `{"x": {"a": 1}}`)
+		closeHost(ind)
+	case "body-typed-any-object":
+		// the value is an object literal even though its type rule says "any"
+		ind := open(p1)
+		pathDir(ind, "{\n  \"x\": {} // {type: \"any\"}\n}")
+		closeHost(ind)
+	case "body-typed-any-array":
+		ind := open(p1)
+		pathDir(ind, "{\n  \"x\": [] // {type: \"any\"}\n}")
+		closeHost(ind)
 	}
 	return c13Neg{Source: sb.String(), Reason: kind, Lines: lines}
 }
@@ -268,10 +295,11 @@ func c13NegCheck(c c13Neg, info *vlib.Info) *vlib.Failure {
 
 func TestC13(t *testing.T) {
 	h := vlib.New(t, "C13", "exploration",
-		"generated documents rich in path trees (shared prefixes, 0-3 parameters at any depth, Path under URL and under methods and through PASTE, parameters declared once for a prefix and used by longer paths, scalar / typed / referenced parameter schemas) against a reference binding table prefix -> declared property; 20 kinds of faulty variants (property matching no segment, parameter declared twice in two blocks or through one macro pasted twice, {} and repeated {x}, Path body that is an array / scalar / nested / has additionalProperties / nullable / or, reference to a non-flat type, Path without body, two Path directives under one parent) at random positions; non-trivial = a bound prefix shared by >= 2 interactions or a parameter bound at depth >= 2; distinct by document",
+		"generated documents rich in path trees (shared prefixes, 0-3 parameters at any depth, Path under URL and under methods and through PASTE, parameters declared once for a prefix and used by longer paths, scalar / typed / referenced parameter schemas) against a reference binding table prefix -> declared property; 25 kinds of faulty variants (property matching no segment, parameter declared twice in two blocks or through one macro pasted twice, {} and repeated {x}, Path body that is an array / scalar / nested / has additionalProperties / nullable / or, reference to a non-flat type, Path without body, two Path directives under one parent) at random positions, the same on hosts whose path has no parameter at all, and object / array literals typed 'any'; parameter names over { } a - e-acute exhaustively to the tier's length (declared, another name declared, the brace-trimmed name declared, beside a plain parameter); non-trivial = a bound prefix shared by >= 2 interactions or a parameter bound at depth >= 2; distinct by document",
 		"clean paths only (no empty segments)")
 	req := []string{"accepted", "prefix-shared-by-interactions", "parameter-at-depth>=2"}
-	for _, k := range []string{"unused-property", "declared-twice-blocks", "declared-twice-macro", "empty-braces", "repeated-name", "body-array", "body-scalar", "body-string", "body-nested-object", "body-nested-array", "body-additionalProperties", "body-nullable", "body-or", "body-ref-scalar", "body-ref-nested", "body-or-shortcut", "no-body", "two-paths-adjacent", "two-paths-apart", "empty-object"} {
+	for _, k := range []string{"unused-property", "declared-twice-blocks", "declared-twice-macro", "empty-braces", "repeated-name", "body-array", "body-scalar", "body-string", "body-nested-object", "body-nested-array", "body-additionalProperties", "body-nullable", "body-or", "body-ref-scalar", "body-ref-nested", "body-or-shortcut", "no-body", "two-paths-adjacent", "two-paths-apart", "empty-object",
+		"unused-property-no-parameters", "unused-property-no-parameters-macro", "body-nested-no-parameters", "body-typed-any-object", "body-typed-any-array"} {
 		req = append(req, "neg:"+k)
 	}
 	h.Require(req...)
@@ -279,5 +307,83 @@ func TestC13(t *testing.T) {
 		doc := vlib.GenDoc(t, vlib.GenOpts{Macros: rapid.Bool().Draw(t, "macros"), PathHeavy: true})
 		return docCase{Doc: doc, Style: genStyle(t, !doc.HasMultilineFreeText())}
 	}, c13Positive)
+	// parameter names: a segment is a parameter when it starts with '{' and ends
+	// with '}' (and is longer than one character); the name is what lies between,
+	// braces included
+	type nameCase struct {
+		Name string `json:"name"`
+		Form string `json:"form"`
+	}
+	vlib.Enum(h, "parameter-names-exhaustive", true, func(yield func(nameCase) bool) {
+		i := 0
+		eachString([]string{"{", "}", "a", "-", "é"}, h.Pick(3, 5), func(int) bool { return true }, func(name string) bool {
+			for _, form := range []string{"declared", "other-name-declared", "trimmed-name-declared", "beside-plain-a"} {
+				i++
+				if h.Mine(i) && !yield(nameCase{name, form}) {
+					return false
+				}
+			}
+			return true
+		})
+	}, func(c nameCase, info *vlib.Info) *vlib.Failure {
+		if c.Name == "" {
+			return nil
+		}
+		info.NonTrivial = strings.ContainsAny(c.Name, "{}")
+		info.Class("name-form:" + c.Form)
+		path := "/c/{" + c.Name + "}/t"
+		var body string
+		wantKeys := []string{c.Name}
+		accept := true
+		switch c.Form {
+		case "declared":
+			body = fmt.Sprintf("{%q: 1}", c.Name)
+		case "other-name-declared":
+			if c.Name == "zz" {
+				return nil
+			}
+			body, accept = `{"zz": 1}`, false
+		case "trimmed-name-declared":
+			tr := strings.Trim(c.Name, "{}")
+			if tr == c.Name || tr == "" {
+				return nil
+			}
+			body, accept = fmt.Sprintf("{%q: 1}", tr), false
+		default:
+			if c.Name == "a" {
+				return nil
+			}
+			path = "/c/{a}/d/{" + c.Name + "}"
+			body = fmt.Sprintf("{\"a\": 1, %q: 2}", c.Name)
+			wantKeys = []string{"a", c.Name}
+		}
+		src := "JSIGHT 0.3\nGET " + path + "\n  Path\n  " + body + "\n  200 any\n"
+		res := vlib.Run(vlib.Single(src))
+		if res.Panic != "" {
+			return nil // C01
+		}
+		if !accept {
+			if res.Accepted {
+				return vlib.Failf("path-fault-accepted: property-matches-no-segment", "accepted although the Path property matches no {name} segment of %s\n--- source:\n%s", path, src)
+			}
+			return nil
+		}
+		if !res.Accepted {
+			return vlib.Failf("valid-document-rejected", "rejected (%s) although every parameter of %s is declared\n--- source:\n%s", res.Err.Msg, path, src)
+		}
+		cat, _ := vlib.ParseCatalog(res.JSON)
+		children, _ := cat.Get("interactions", "http GET "+path, "pathVariables", "schema", "content", "children").([]any)
+		var got []string
+		for _, ch := range children {
+			if m, ok := ch.(*vlib.OMap); ok {
+				k, _ := m.Vals["key"].(string)
+				got = append(got, k)
+			}
+		}
+		if strings.Join(got, "\x00") != strings.Join(wantKeys, "\x00") {
+			return vlib.Failf("path-variables-differ", "pathVariables of %s list %q, expected %q\n--- source:\n%s", path, got, wantKeys, src)
+		}
+		return nil
+	})
 	vlib.Rapid(h, "negative-path-declarations", h.N(8000, 200000), genPathNegative, c13NegCheck)
 }
